@@ -17,7 +17,8 @@ CONSTANTS MsgSrc, MsgMid, MsgTot,      \* sequences: source, message ID and chun
           DupCheck,                    \* FALSE: a duplicate chunk is stored and counted again (mutant)
           TotalCheck,                  \* FALSE: chunk-count mismatch not checked (mutant)
           CapStrict,                   \* FALSE: per-source cap compared with > instead of >= (mutant)
-          GcOn                         \* FALSE: the sweep never removes anything (mutant)
+          GcOn,                        \* FALSE: the sweep never removes anything (mutant)
+          IdEarly                      \* FALSE: the message ID is consumed only after the last chunk went out (mutant)
 
 VARIABLES tab,      \* <<src, mid>> -> [total, slots, received, deadline]
           per,      \* src -> counter (the code's perSource map; absent = 0)
@@ -106,19 +107,42 @@ WriteEvent(plen, chunks, mn, mx, hi) ==
   IN [ev |-> "Write", scn |-> 0, c |-> 1, plen |-> plen, long |-> TRUE, n |-> plen, errNil |-> TRUE, nd |-> chunks,
       sizes |-> [i \in 1..chunks |-> Salt + Hdr + pad[i] + clen[i]], clens |-> clen, pads |-> pad,
       idxs |-> [i \in 1..chunks |-> i - 1], tots |-> [i \in 1..chunks |-> chunks], mids |-> [i \in 1..chunks |-> 7],
-      hdrOk |-> TRUE, concatOk |-> TRUE, min |-> mn, max |-> mx]
+      hdrOk |-> TRUE, concatOk |-> TRUE, min |-> mn, max |-> mx, fault |-> FALSE, conc |-> FALSE]
 
 Grid == /\ nDeliv = 0 /\ nTick = 0
         /\ \E p \in GridP, c \in 2..8, mm \in GridMM, hi \in BOOLEAN :
              mon' = [MonStep(mon, WriteEvent(p, c, mm[1], mm[2], hi), 0) EXCEPT !.mids = mon.mids]
         /\ UNCHANGED <<tab, per, now, nDeliv, nTick, hist>>
 
+\* message-ID allocation (gecko.go:115): a send aborted by an inner-socket error after `sent` chunks, then the next
+\* message, then two overlapping sends.  ctr is the counter before the first send.
+AbortThenNext(ctr, sent) ==
+  LET id1 == IF IdEarly THEN (ctr + 1) % 256 ELSE ctr % 256
+      c1  == IF IdEarly THEN ctr + 1 ELSE ctr                      \* the aborted send does not reach the late Add(1)
+      id2 == IF IdEarly THEN (c1 + 1) % 256 ELSE c1 % 256
+      w1  == WriteEvent(9, 3, 512, 1200, FALSE)
+      a   == [w1 EXCEPT !.fault = TRUE, !.errNil = FALSE, !.n = 0, !.nd = sent,
+                         !.sizes = SubSeq(@, 1, sent), !.clens = SubSeq(@, 1, sent), !.pads = SubSeq(@, 1, sent),
+                         !.idxs = SubSeq(@, 1, sent), !.tots = SubSeq(@, 1, sent), !.mids = [i \in 1..sent |-> id1]]
+      b   == [w1 EXCEPT !.mids = [i \in 1..3 |-> id2]]
+  IN <<a, b>>
+Overlap(ctr) ==     \* both sends read the counter before either advances it, unless the ID is reserved up front
+  LET id1 == IF IdEarly THEN (ctr + 1) % 256 ELSE ctr % 256
+      id2 == IF IdEarly THEN (ctr + 2) % 256 ELSE ctr % 256
+      w1  == [WriteEvent(9, 2, 512, 1200, FALSE) EXCEPT !.conc = TRUE]
+  IN <<[w1 EXCEPT !.mids = [i \in 1..2 |-> id1]], [w1 EXCEPT !.mids = [i \in 1..2 |-> id2]]>>
+IdAlloc == /\ nDeliv = 0 /\ nTick = 0
+           /\ \E ctr \in {0, 5, 254, 255}, sent \in 1..2, which \in BOOLEAN :
+                LET ws == IF which THEN AbortThenNext(ctr, sent) ELSE Overlap(ctr) IN
+                mon' = [MonStep(MonStep([mon EXCEPT !.mids = <<>>], ws[1], 0), ws[2], 0) EXCEPT !.mids = mon.mids]
+           /\ UNCHANGED <<tab, per, now, nDeliv, nTick, hist>>
+
 Init == /\ tab = <<>> /\ per = <<>> /\ now = 1 /\ nDeliv = 0 /\ nTick = 0 /\ hist = <<>>
         /\ mon = [MonInit EXCEPT !.cfg = ScaledCfg,
                                  !.msgs = [i \in Msgs |-> [src |-> MsgSrc[i], mid |-> MsgMid[i], total |-> MsgTot[i], plen |-> PLen(i),
                                                           last |-> [j \in 1..MsgTot[i] |-> -1]]]]
 
-Next == \/ Grid
+Next == \/ Grid \/ IdAlloc
         \/ \E i \in Msgs : \E idx \in 0..(MsgTot[i] - 1) : Deliver(i, idx)
         \/ Tick
 
